@@ -1,4 +1,6 @@
 """Seeded generators of hostile and realistic inputs."""
+import os
+
 import numpy as np
 
 HOSTILE_NAMES = [
@@ -218,7 +220,20 @@ def realistic_screen_kwargs(
         elif observed == "all":
             mask[:] = True
         kw["observation_mask"] = mask
+    if os.environ.get("VF_NO_DRESS") != "1" and rng.random() < 0.2:
+        # the same values in other containers (all writeable: workloads edit what they generate): every second element
+        # of a bigger buffer, a negatively strided view, column-major tables, a window into a bigger buffer - what
+        # slicing a data frame or a bigger array hands over
+        from . import kit
+
+        for k_ in ("treatment_names", "treatment_doses", "sample_names", "plate_names", "observations", "observation_mask"):
+            if k_ in kw and rng.random() < 0.7:
+                kw[k_] = kit.dress(rng, kw[k_], kind=str(rng.choice(["strided", "reversed", "fortran", "offset"])))[0]
+        DRESSED[0] += 1
     return kw
+
+
+DRESSED = [0]
 
 
 def row_table(screen):
